@@ -23,10 +23,8 @@ impl<'a> Svg<'a> {
             .and_then(|index| document_list.document_records().get(index))
             .and_then(|r| {
                 let all_data = document_list.data.as_bytes();
-                all_data.get(
-                    r.svg_doc_offset.get() as usize
-                        ..(r.svg_doc_offset.get() + r.svg_doc_length.get()) as usize,
-                )
+                let start = r.svg_doc_offset.get() as usize;
+                all_data.get(start..start.checked_add(r.svg_doc_length.get() as usize)?)
             });
 
         Ok(svg_document)
